@@ -24,6 +24,8 @@ def ofList [Inhabited α] (l : List α) : P6 α :=
   ⟨l.getD 0 default, l.getD 1 default, l.getD 2 default, l.getD 3 default, l.getD 4 default, l.getD 5 default⟩
 def get [Inhabited α] (p : P6 α) (j : Nat) : α := p.toList.getD j default
 def map {β : Type} (f : α → β) (p : P6 α) : P6 β := ⟨f p.p0, f p.p1, f p.p2, f p.p3, f p.p4, f p.p5⟩
+/-- `VectorNd::reverseInPlace` -/
+def rev (p : P6 α) : P6 α := ⟨p.p5, p.p4, p.p3, p.p2, p.p1, p.p0⟩
 end P6
 
 section ring
